@@ -285,7 +285,7 @@ package dbft
 //@        self.Transactions, self.TransactionHashes, self.MissingTransactions, self.Timestamp, self.Nonce, self.header, self.block, self.preHeader, self.preBlock,
 //@        self.blockProcessed, self.preBlockProcessed, self.BlockIndex, self.PrimaryIndex) && gTimerArms == old(gTimerArms)
 //@ pred txKept() = forallOf(Transaction, t, implies(old(has(self.Transactions, t.Hash())), has(self.Transactions, t.Hash())))
-//@ pred cachePurged() = forall(h, implies(has(self.cache.mail, h), h > self.BlockIndex))
+//@ pred cachePurged() = forall(h, implies(has(self.cache.mail, h), h >= self.BlockIndex))
 //@ bundle UNDECIDED
 //@   requires [C05] @undecided !self.blockProcessed
 //@ bundle INV
@@ -310,6 +310,7 @@ package dbft
 //@   ensures  @hist unchanged(self.Validators) && self.BlockIndex == old(self.BlockIndex) && self.ViewNumber >= old(self.ViewNumber) && self.MyIndex == old(self.MyIndex)
 //@   ensures  @arms gTimerArms >= old(gTimerArms) && gBroadcasts >= old(gBroadcasts)
 //@   ensures  [C05] @decidedStays implies(old(self.blockProcessed), self.blockProcessed)
+//@   ensures  [C05] @cacheKeptPurged implies(old(cachePurged()), cachePurged())
 //@   ensures  [C12] @txKept implies(self.ViewNumber == old(self.ViewNumber), forallOf(Transaction, t, implies(old(has(self.Transactions, t.Hash())), has(self.Transactions, t.Hash()))))
 //@   ensures  @heap heapMono()
 //@   ensures  [C10] @timer implies(aview() && (old(timerOK()) || self.ViewNumber != old(self.ViewNumber)), timerOK())
@@ -318,6 +319,7 @@ package dbft
 //@ bundle LOOPU
 //@   use INV
 //@   ensures gBroadcasts >= old(gBroadcasts)
+//@   ensures [C05] @cacheKeptPurged implies(old(cachePurged()), cachePurged())
 //@   ensures [C05] @decidedStays implies(old(self.blockProcessed), self.blockProcessed)
 //@   ensures [C12] @txKept implies(self.ViewNumber == old(self.ViewNumber), forallOf(Transaction, t, implies(old(has(self.Transactions, t.Hash())), has(self.Transactions, t.Hash()))))
 //@   ensures  [C03] @lock implies(old(locked()), self.ViewNumber == old(self.ViewNumber) && implies(old(gCommit) != nil, gCommit == old(gCommit)) && implies(old(gPreCommit) != nil, gPreCommit == old(gPreCommit)))
@@ -629,16 +631,21 @@ package dbft
 //@   ensures [C10] @timer implies(aview(), timerOK())
 //@   ensures @arms gTimerArms >= old(gTimerArms)
 //@   ensures [C05] @cachePurged implies(view == 0, cachePurged())
+//@   ensures [C05] @cacheKeptPurged implies(old(cachePurged()), cachePurged())
 //@   ensures [C03] @freshStart implies(old(forall(h, !has(self.cache.mail, h))), forall(i, 0, NN(), self.PreparationPayloads[i] == nil && self.CommitPayloads[i] == nil && self.PreCommitPayloads[i] == nil) || view > 0)
 //@   ensures [C05] @freshStartView implies(old(forall(h, !has(self.cache.mail, h))) && view == 0, self.ViewNumber == 0 && !self.blockProcessed)
 //@   loop 1: use INV
 //@   loop 1: invariant self.ViewNumber >= view && implies(view > 0, sameHeight()) && heapMono() && inboxOK(msgs) && gTimerArms >= old(gTimerArms)
+//@   loop 1: invariant [C05] @cachePurged implies(view == 0, cachePurged()) && implies(old(cachePurged()), cachePurged())
 //@   loop 2: use INV
 //@   loop 2: invariant self.ViewNumber >= view && implies(view > 0, sameHeight()) && heapMono() && inboxOK(msgs) && gTimerArms >= old(gTimerArms)
+//@   loop 2: invariant [C05] @cachePurged implies(view == 0, cachePurged()) && implies(old(cachePurged()), cachePurged())
 //@   loop 3: use INV
 //@   loop 3: invariant self.ViewNumber >= view && implies(view > 0, sameHeight()) && heapMono() && inboxOK(msgs) && gTimerArms >= old(gTimerArms)
+//@   loop 3: invariant [C05] @cachePurged implies(view == 0, cachePurged()) && implies(old(cachePurged()), cachePurged())
 //@   loop 4: use INV
 //@   loop 4: invariant self.ViewNumber >= view && implies(view > 0, sameHeight()) && heapMono() && inboxOK(msgs) && gTimerArms >= old(gTimerArms)
+//@   loop 4: invariant [C05] @cachePurged implies(view == 0, cachePurged()) && implies(old(cachePurged()), cachePurged())
 //@   wraps d.ViewNumber+1 unless aview()
 //@   wraps d.timePerBlock<<(d.ViewNumber+1) unless aview()
 //@   wraps timeout-diff unless aview()
@@ -774,6 +781,7 @@ package dbft
 //@ func (*cache).addMessage
 //@   requires cacheOK() && m != nil
 //@   ensures cacheOK() && heapMono()
+//@   ensures forall(k, implies(has(self.cache.mail, k), old(has(self.cache.mail, k)) || k == m.Height()))
 //@   modifies cache.mail, heap inbox.*
 //@ func (*rtt).addTime
 //@   requires 0 <= r.idx && r.idx < 70
